@@ -31,7 +31,17 @@ static scpi_result_t on_control(scpi_t * c, scpi_ctrl_name_t n, scpi_reg_val_t v
     if (n == SCPI_CTRL_SRQ && srqn < 32) srqv[srqn++] = v;
     return SCPI_RES_OK;
 }
-static int on_error(scpi_t * c, int_fast16_t e) { (void) c; (void) e; return 0; }
+/* nested = 1 / 2: the application takes an error out of the queue / empties the queue in every announcement of an error */
+static int nested, in_callback;
+static int on_error(scpi_t * c, int_fast16_t e) {
+    (void) e;
+    if (in_callback) return 0;      /* the "queue is empty" notification of the pop / clear below */
+    in_callback = 1;
+    if (nested == 1) { scpi_error_t x; SCPI_ErrorPop(c, &x); }
+    else if (nested == 2) SCPI_ErrorClear(c);
+    in_callback = 0;
+    return 0;
+}
 static size_t on_write(scpi_t * c, const char * d, size_t l) {
     (void) c;
     if (outn + l < sizeof outb) { memcpy(outb + outn, d, l); outn += l; }
@@ -94,7 +104,7 @@ static void print_state(FILE * f) {
 static void print_op(FILE * f, const op_t * o) {
     if (!strcmp(o->kind, "set") || !strcmp(o->kind, "setbits") || !strcmp(o->kind, "clrbits"))
         fprintf(f, "[\"%s\",\"%s\",%ld]", o->kind, o->name, o->val);
-    else if (!strcmp(o->kind, "push")) fprintf(f, "[\"push\",%ld]", o->val);
+    else if (!strncmp(o->kind, "push", 4)) fprintf(f, "[\"%s\",%ld]", o->kind, o->val);
     else if (!strcmp(o->kind, "cmd")) {
         if (o->hasval) fprintf(f, "[\"cmd\",\"%s\",%ld]", o->name, o->val);
         else fprintf(f, "[\"cmd\",\"%s\"]", o->name);
@@ -110,6 +120,8 @@ static void apply(const op_t * o) {
     else if (!strcmp(o->kind, "setbits")) SCPI_RegSetBits(&ctx, regindex(o->name), (scpi_reg_val_t) o->val);
     else if (!strcmp(o->kind, "clrbits")) SCPI_RegClearBits(&ctx, regindex(o->name), (scpi_reg_val_t) o->val);
     else if (!strcmp(o->kind, "push")) SCPI_ErrorPush(&ctx, (int16_t) o->val);
+    else if (!strcmp(o->kind, "pushpop")) { nested = 1; SCPI_ErrorPush(&ctx, (int16_t) o->val); nested = 0; }
+    else if (!strcmp(o->kind, "pushclr")) { nested = 2; SCPI_ErrorPush(&ctx, (int16_t) o->val); nested = 0; }
     else if (!strcmp(o->kind, "pop")) { scpi_error_t e; SCPI_ErrorPop(&ctx, &e); resp[nresp++] = e.error_code; }
     else if (!strcmp(o->kind, "clear")) SCPI_ErrorClear(&ctx);
     else if (!strcmp(o->kind, "cls")) SCPI_CoreCls(&ctx);
@@ -159,7 +171,7 @@ static void load_ops(const char * path) {
         int k = sscanf(line, "%31s %31s %31s", a, b, c);
         if (k < 1) continue;
         strcpy(o->kind, a);
-        if (!strcmp(a, "push")) { o->val = atol(b); }
+        if (!strncmp(a, "push", 4)) { o->val = atol(b); }
         else if (k >= 2) { strcpy(o->name, b); if (k == 3) { o->val = atol(c); o->hasval = 1; } }
         nops++;
     }
@@ -274,7 +286,10 @@ static int walk(unsigned long seedv, long steps, const char * outpath) {
         } else if (r < 43) {
             /* the application acknowledges / re-raises the request bit itself: MSS must stay a function of the rest */
             strcpy(o.kind, (rnd() & 1) ? "clrbits" : "setbits"); strcpy(o.name, "STB"); o.val = 64; o.hasval = 1;
-        } else if (r < 55) { strcpy(o.kind, "push"); o.val = codes[rnd() % (sizeof codes / sizeof codes[0])]; }
+        } else if (r < 55) {
+            unsigned m = rnd() % 8;      /* one push in four is drained by the error callback */
+            strcpy(o.kind, m == 0 ? "pushpop" : m == 1 ? "pushclr" : "push"); o.val = codes[rnd() % (sizeof codes / sizeof codes[0])];
+        }
         else if (r < 62) strcpy(o.kind, "pop");
         else if (r < 64) strcpy(o.kind, "clear");
         else if (r < 66) strcpy(o.kind, "count");
